@@ -47,6 +47,7 @@ namespace {
 
 thread_local bool tl_filter = false;       // set by the probe on the filtering thread
 std::atomic<bool> g_free{false};           // parking disabled (free run)
+std::atomic<bool> g_free_op{false};        // the `free` operation (logs the end mark)
 std::atomic<bool> g_rc{false};             // value run_condition() returns when released
 std::atomic<long> g_true_calls{0};         // free mode: remaining `true` answers of run_condition()
 std::atomic<int> g_place{'?'};
@@ -131,6 +132,7 @@ protected:
             if (!g_free.load()) { g_place.store('f'); sem_post(&g_arrive); }
             return;
         }
+        if (p == 4 && g_free_op.load()) logev("P");   // free run: the final store has not happened yet
         arrive('0' + p);
     }
 };
@@ -259,6 +261,7 @@ void run_free(int fd, const std::vector<std::string>& toks0) {
     sem_init(&g_arrive, 0, 0);
     sem_init(&g_go, 0, 0);
     g_free.store(true);
+    g_free_op.store(true);
     std::vector<std::string> toks(toks0);
     if (toks.empty()) { emit(fd, "bad-args"); return; }
     g_true_calls.store(std::atol(toks[0].c_str()));
